@@ -246,6 +246,8 @@ class SshHostKeyRSABase(SshHostKeyBase):
     def _parse_host_key(cls, parser):
         parser.parse_ssh_mpint('e')
         parser.parse_ssh_mpint('n')
+        if parser['e'] <= 0 or parser['n'] <= 0:
+            raise InvalidValue(parser['n'] if parser['e'] > 0 else parser['e'], cls, 'public_key')
 
         public_key = PublicKey.from_params(PublicKeyParamsRsa(
             modulus=parser['n'],
